@@ -313,6 +313,11 @@ pub fn c05_judge(acc: &mut Acc, shrunk: &axcut::syntax::Prog, args_list: &[Vec<i
             acc.violation("C05:positional", format!("positional machine assertion on the linearized program: {m}"), rj(args, &m));
             return false;
         }
+        if got.end == Err(Undefined::Fuel) {
+            // the linearized program needs more steps (explicit substitutions): inconclusive
+            acc.discard("AxCut machine budget exhausted on the linearized program (inconclusive)");
+            continue;
+        }
         if let Some(d) = trace::diff(&reference, &got) {
             acc.violation("C05:trace", format!("linearized program behaves differently: {d}"), rj(args, &d));
             return false;
